@@ -253,6 +253,10 @@ def strings_of(x, acc=None):
     return acc
 
 
+def _not_json(word):
+    raise ValueError('%s is not a JSON value (RFC 8259 section 6)' % word)
+
+
 def judge_json(ev, w):
     """-> (problems [(tag, detail)], parsed event or None) for one JSON helper's Event"""
     kind, version, vs = ENCODERS[ev.proc]
@@ -267,7 +271,8 @@ def judge_json(ev, w):
     if any(c < 0x20 or c > 0x7e for c in data[:-1]):
         bad.append(('control-or-non-ascii-octet', repr(data[:160])))
     try:
-        doc = json.loads(data.decode('ascii'), object_pairs_hook=_no_dup)
+        # RFC 8259 knows no NaN / Infinity: Python's parser accepts them unless told otherwise
+        doc = json.loads(data.decode('ascii'), object_pairs_hook=_no_dup, parse_constant=_not_json)
     except Dup as d:
         return bad + [('duplicate-key', 'key %r twice in one object: %s' % (d.args[0], data[:300].decode('ascii', 'replace')))], None
     except Exception as exc:
